@@ -248,7 +248,7 @@ def _num_operand(draw, ctx, depth, kind, symbolic, prev_op):
         # keep powers tame: small literal exponents (optionally signed / bracketed)
         e = draw(st.sampled_from(["0", "1", "2", "3", "2", "3", "2.0", "0.5", "1.5"]))
         kind_ = "int" if e.isdigit() else "float"
-        s = draw(st.sampled_from(["", "", "", "-"]))
+        s = draw(st.sampled_from(["", "", "", "", "", "", "", "-"] if kind_ == "int" else ["", "", "", "-"]))
         return A.Operand(s, A.Num(kind_, e))
     if prev_op == "/" and draw(st.integers(0, 2)) > 0:
         # keep most divisors away from zero
